@@ -27,6 +27,15 @@ sqfs_u32 xxh32(const void *input, const size_t len) { (void)input; return (sqfs_
 #define set_block_size be_set_block_size
 #include "lib/sqfs/src/block_processor/backend.c"
 
+#if !VP_CBMC
+/* native replay only: referenced by code paths this scenario never takes */
+int sqfs_frag_table_set(sqfs_frag_table_t *t, sqfs_u32 i, sqfs_u64 l, sqfs_u32 s) { (void)t; (void)i; (void)l; (void)s; abort(); }
+int sqfs_frag_table_append(sqfs_frag_table_t *t, sqfs_u64 l, sqfs_u32 s, sqfs_u32 *i) { (void)t; (void)l; (void)s; (void)i; abort(); }
+struct hash_entry *hash_table_search_pre_hashed(struct hash_table *h, sqfs_u32 hash, const void *k) { (void)h; (void)hash; (void)k; abort(); }
+struct hash_entry *hash_table_insert_pre_hashed(struct hash_table *h, sqfs_u32 hash, const void *k, void *d) { (void)h; (void)hash; (void)k; (void)d; abort(); }
+int enqueue_block(sqfs_block_processor_t *p, sqfs_block_t *b) { (void)p; (void)b; abort(); }
+int sqfs_frag_table_lookup(sqfs_frag_table_t *t, sqfs_u32 i, sqfs_fragment_t *o) { (void)t; (void)i; (void)o; abort(); }
+#endif
 static unsigned writes; static sqfs_u32 w_size, w_flags;
 static int wr_write(sqfs_block_writer_t *wr, void *user, sqfs_u32 size, sqfs_u32 checksum, sqfs_u32 flags, const sqfs_u8 *data, sqfs_u64 *location)
 {
